@@ -43,7 +43,7 @@ SA, SN, SB = TConst('set', A), TConst('set', N), TConst('set', B)
 
 VARS = {B: ['p', 'q', 'r'], N: ['m', 'n', 'k'], I: ['i', 'j'], R: ['x', 'y'], A: ['a', 'b'], LA: ['xs', 'ys'], LN: ['ns', 'ms'],
         SA: ['S', 'T'], SN: ['U', 'V'], SB: ['W'], TFun(A, A): ['f', 'f2'], TFun(N, N): ['g'], TFun(A, B): ['P'], TFun(N, B): ['Q'],
-        TFun(A, A, B): ['h'], TConst('set', SA): ['SS']}
+        TFun(A, A, B): ['h'], TConst('set', SA): ['SS', 'TT'], TConst('set', TConst('set', SA)): ['SSS']}
 ALLVARS = {nm: T for T, nms in VARS.items() for nm in nms}
 
 
@@ -207,7 +207,20 @@ class Gen:
             if c == 'interval' and T == SN and theory.thy.has_term_sig('nat_interval'):
                 return dinterval.mk_interval(t(N), t(N))
             if c == 'Union' and T == SA:
-                return C(r.choice(['Union', 'Inter']), TConst('set', SA), SA)(Var('SS', TConst('set', SA)))
+                # big union / intersection of a family that is itself a variable, a big union / intersection one level up,
+                # a binary union / intersection or a literal family: prefix operators directly inside prefix operators
+                SSA, SSSA = TConst('set', SA), TConst('set', TConst('set', SA))
+
+                def family(k):
+                    c2 = r.choice(['var', 'var', 'big', 'big', 'bin', 'lit']) if k > 0 else 'var'
+                    if c2 == 'big':
+                        return C(r.choice(['Union', 'Inter']), SSSA, SSA)(Var('SSS', SSSA))
+                    if c2 == 'bin':
+                        return C(r.choice(['union', 'inter']), SSA, SSA, SSA)(family(k - 1), family(k - 1))
+                    if c2 == 'lit':
+                        return dset.mk_literal_set([t(SA) for _ in range(r.choice([1, 2]))], SA)
+                    return Var(r.choice(['SS', 'TT']), SSA)
+                return C(r.choice(['Union', 'Inter']), SSA, SA)(family(min(d, 2)))
             return self.var(T)
         if T in VARS:
             return self.var(T)
